@@ -36,9 +36,11 @@ import (
 // damage of one file; positions are relative to the file's own layout (save() walks Go maps, so the order of the records
 // in the file differs from run to run — a replay resolves the same class against the file it gets)
 type damage struct {
-	Kind string `json:"kind"` // intact | missing | cut | count
-	Recs int    `json:"recs"` // cut: complete records kept (-1: the cut is inside the header, Into bytes of it are kept)
+	Kind string `json:"kind"` // intact | missing | cut | count | garbage
+	Recs int    `json:"recs"` // cut: complete records kept (-1: the cut is inside the header, Into bytes of it are kept); garbage: complete records kept
 	Into int    `json:"into"` // cut: bytes kept of the next record (length prefix included), reduced below its size; count: added to the header's count
+	Hex  string `json:"hex"`  // garbage: the bytes that replace the rest of the records (they start with a length prefix larger than what follows)
+	Rel  bool   `json:"rel"`  // count: the header's count is the size of the file + Into; garbage: Hex is preceded by ff + (size of the damaged file + Into)
 }
 
 func (d damage) String() string {
@@ -46,7 +48,15 @@ func (d damage) String() string {
 	case "cut":
 		return fmt.Sprintf("cut(%d records + %d bytes)", d.Recs, d.Into)
 	case "count":
+		if d.Rel {
+			return fmt.Sprintf("count=filesize+%d", d.Into)
+		}
 		return fmt.Sprintf("count+%d", d.Into)
+	case "garbage":
+		if d.Rel {
+			return fmt.Sprintf("garbage(%d records + length=filesize+%d + %d bytes)", d.Recs, d.Into, len(d.Hex)/2)
+		}
+		return fmt.Sprintf("garbage(%d records + %s)", d.Recs, short(d.Hex))
 	}
 	return d.Kind
 }
@@ -63,8 +73,8 @@ func (fc *fbCase) replay() map[string]interface{} {
 	m["kind"] = "fallback"
 	m["old_other_format"] = fc.OldOther
 	m["cfg_compressed"] = fc.CfgCompressed
-	m["db"] = map[string]interface{}{"kind": fc.Db.Kind, "recs": fc.Db.Recs, "into": fc.Db.Into}
-	m["old"] = map[string]interface{}{"kind": fc.Old.Kind, "recs": fc.Old.Recs, "into": fc.Old.Into}
+	m["db"] = map[string]interface{}{"kind": fc.Db.Kind, "recs": fc.Db.Recs, "into": fc.Db.Into, "hex": fc.Db.Hex, "rel": fc.Db.Rel}
+	m["old"] = map[string]interface{}{"kind": fc.Old.Kind, "recs": fc.Old.Recs, "into": fc.Old.Into, "hex": fc.Old.Hex, "rel": fc.Old.Rel}
 	return m
 }
 
@@ -78,6 +88,8 @@ func damageFromJSON(x interface{}) damage {
 	a, _ := m["recs"].(float64)
 	b, _ := m["into"].(float64)
 	d.Recs, d.Into = int(a), int(b)
+	d.Hex, _ = m["hex"].(string)
+	d.Rel, _ = m["rel"].(bool)
 	return d
 }
 
@@ -147,10 +159,38 @@ func (d damage) apply(f []byte) (out []byte, complete bool, what string) {
 	case "count":
 		g := append([]byte{}, f...)
 		cnt := uint64(len(offs)) + uint64(d.Into)
+		if d.Rel {
+			cnt = uint64(len(f)) + uint64(d.Into)
+		}
 		for i := 0; i < 8; i++ {
 			g[40+i] = byte(cnt >> (8 * i))
 		}
-		return g, d.Into == 0, fmt.Sprintf("header count %d, records %d", cnt, len(offs))
+		return g, cnt == uint64(len(offs)), fmt.Sprintf("header count %d, records %d (file %d bytes)", cnt, len(offs), len(f))
+	case "garbage":
+		j := d.Recs
+		if j > len(offs) || j < 0 {
+			j = len(offs)
+		}
+		keep := end
+		if j < len(offs) {
+			keep = offs[j]
+		}
+		g := append([]byte{}, f[:keep]...)
+		tail, _ := hex.DecodeString(d.Hex)
+		claim := ""
+		if d.Rel {
+			v := uint64(keep + 9 + len(tail) + d.Into)
+			g = append(append(g, 0xff), le64(v)...)
+			claim = fmt.Sprintf("a 9-byte length prefix of %d, ", v)
+		}
+		g = append(g, tail...)
+		if len(offs) < j+1 { // the garbage must be read as a record
+			cnt := uint64(j + 1)
+			for i := 0; i < 8; i++ {
+				g[40+i] = byte(cnt >> (8 * i))
+			}
+		}
+		return g, false, fmt.Sprintf("garbage after %d of %d records: %s%s (file %d -> %d bytes)", j, len(offs), claim, short(d.Hex), len(f), len(g))
 	case "cut":
 		if d.Recs < 0 {
 			n := d.Into
@@ -194,7 +234,16 @@ type loadRes struct {
 }
 
 // openDir: the real loader with a time limit (a loader that does not return is an observation, not a crash of the run)
-func openDir(dir string, cfgCompressed bool, procs int) loadRes {
+func openDir(dir string, cfgCompressed bool, procs int) (loadRes, []int64) {
+	var asked []int64
+	inner := utxo.Memory_Malloc
+	utxo.Memory_Malloc = func(le int) *[]byte {
+		if len(asked) < 1<<16 {
+			asked = append(asked, int64(le))
+		}
+		return inner(le)
+	}
+	defer func() { utxo.Memory_Malloc = inner }()
 	done := make(chan loadRes, 1)
 	stdout := os.Stdout
 	prev := runtime.GOMAXPROCS(0)
@@ -238,11 +287,11 @@ func openDir(dir string, cfgCompressed bool, procs int) loadRes {
 	}()
 	select {
 	case x := <-done:
-		return x
+		return x, asked
 	case <-time.After(20 * time.Second):
 		loaderHung = true
 		os.Stdout = stdout
-		return loadRes{err: "NewUnspentDb does not return (waited 20 s)"}
+		return loadRes{err: "NewUnspentDb does not return (waited 20 s)"}, nil
 	}
 }
 
@@ -437,14 +486,25 @@ func checkFallback(kind string, fc *fbCase) {
 	}
 	desc := fmt.Sprintf("UTXO.db %s, UTXO.old %s (format %s, UTXO.old in the other format: %v)", whatB, whatA, mode, fc.OldOther)
 	setMode(false)
-	got := openDir(dir, fc.CfgCompressed, 0)
+	var got loadRes
+	var asked []int64
+	if fc.Db.needsChild() || fc.Old.needsChild() {
+		// numbers an unguarded loader hands to the allocator: a process of its own, the package's allocator, no cap
+		r.Hit("fallback:opened-in-child-process(no allocator cap)")
+		got, asked = openDirChild(dir, fc.CfgCompressed)
+		if got.err != "" {
+			r.Hit("fallback:child-died")
+		}
+	} else {
+		got, asked = openDir(dir, fc.CfgCompressed, 0)
+	}
 	if got.err != "" {
 		fail(desc + ": " + got.err)
 		return
 	}
 	judgeReopen(fail, got, want, desc)
 	// every live output of the expected snapshot through the reopened database; none of the other snapshot's extra ones
-	if !failed && outcome != "neither-readable" {
+	if !failed && outcome != "neither-readable" && got.db != nil {
 		live := map[[32]byte]map[int]*Out{}
 		add := func(rc *Rec) {
 			m := map[int]*Out{}
@@ -495,6 +555,7 @@ func checkFallback(kind string, fc *fbCase) {
 	setMode(false)
 	// ---- tie: the model of the loader with its retry, on the bytes of the two files
 	if len(dmgA)+len(dmgB) > 1<<20 {
+		r.Hit("fallback:tie-skipped(files over 1 MiB)")
 		return
 	}
 	tok := func(b []byte) string {
@@ -528,6 +589,25 @@ func checkFallback(kind string, fc *fbCase) {
 				tieBad = fmt.Sprintf("model record %x is not in the loader's maps (or differs)", k)
 				break
 			}
+		}
+	}
+	if tieBad == "" {
+		// what the loader asked Memory_Malloc for = the model's walk over UTXO.db, then (after a failed attempt) over UTXO.old
+		wantAsk := []string{}
+		ask := func(b []byte) {
+			f := strings.Fields(o.MustAsk("asks " + tok(b)))
+			if len(f) < 3 || f[0] != "ok" {
+				tieBad = "model gives no allocation requests: " + short(strings.Join(f, " "))
+				return
+			}
+			wantAsk = append(wantAsk, f[3:]...)
+		}
+		ask(dmgB)
+		if !okB {
+			ask(dmgA)
+		}
+		if line := fmt.Sprint(len(wantAsk), " ", strings.Join(wantAsk, " ")); tieBad == "" && strings.TrimSpace(line) != mallocsLine(asked) {
+			tieBad = "Memory_Malloc was called with " + short(mallocsLine(asked)) + " (count, then the lengths); the model's loader asks for " + short(line)
 		}
 	}
 	if tieBad != "" {
@@ -573,6 +653,21 @@ func runFallback(g *vlib.Rng) {
 		{{Kind: "intact"}, {Kind: "cut", Recs: 0, Into: 3}},
 		{{Kind: "intact"}, {Kind: "missing"}},
 		{{Kind: "cut", Recs: 2, Into: 1}, {Kind: "cut", Recs: 0, Into: 7}},
+		// garbage for a record length / an absurd record count (opened in a child process without the allocator cap):
+		// the witnesses of the finding fixed by a45f580a — 2^63, 2^62 (makeslice panic), 2^48, 2^40 (out of memory) + 40 bytes
+		{{Kind: "garbage", Recs: 0, Hex: "ff0000000000000080" + strings.Repeat("00", 40)}, {Kind: "intact"}},
+		{{Kind: "garbage", Recs: 0, Hex: "ff0000000000000040" + strings.Repeat("00", 40)}, {Kind: "intact"}},
+		{{Kind: "garbage", Recs: 1, Hex: "ff0000000000010000" + strings.Repeat("5a", 40)}, {Kind: "intact"}},
+		{{Kind: "garbage", Recs: 1 << 20, Hex: "ff0000000000010000"}, {Kind: "intact"}},
+		{{Kind: "garbage", Recs: 0, Hex: "feffffffff"}, {Kind: "intact"}},
+		{{Kind: "garbage", Recs: 0, Rel: true, Into: 0, Hex: "0102"}, {Kind: "intact"}},
+		{{Kind: "garbage", Recs: 0, Rel: true, Into: 1, Hex: "0102"}, {Kind: "intact"}},
+		{{Kind: "count", Into: 1 << 40}, {Kind: "intact"}},
+		{{Kind: "count", Into: 1 << 36}, {Kind: "intact"}},
+		{{Kind: "count", Rel: true, Into: 0}, {Kind: "intact"}},
+		{{Kind: "count", Rel: true, Into: 1}, {Kind: "intact"}},
+		{{Kind: "intact"}, {Kind: "garbage", Recs: 0, Hex: "ff0000000000000080"}},
+		{{Kind: "cut", Recs: 0, Into: 2}, {Kind: "garbage", Recs: 0, Hex: "ff0000000000000040aabb"}},
 	}
 	for i, d := range fixed {
 		if loaderHung {
@@ -589,11 +684,15 @@ func runFallback(g *vlib.Rng) {
 		uc := genUndoCase(g, "goheap", c)
 		fc := &fbCase{H: uc, CfgCompressed: g.Bool(), OldOther: g.Chance(1, 7)}
 		nB := len(uc.Recs) + len(uc.NewRecs)
-		switch g.Pick(0, 0, 0, 0, 0, 0, 0, 1, 2) {
+		switch g.Pick(0, 0, 0, 0, 0, 0, 0, 1, 2, 3, 3, 3, 4) {
 		case 0:
 			fc.Db = genDamage(g, nB)
 		case 1:
 			fc.Db = damage{Kind: "missing"}
+		case 3:
+			fc.Db = genGarbage(g, nB)
+		case 4:
+			fc.Db = genHugeCount(g)
 		default:
 			fc.Db = damage{Kind: "intact"}
 		}
@@ -604,6 +703,9 @@ func runFallback(g *vlib.Rng) {
 			fc.Old = damage{Kind: "missing"}
 		default:
 			fc.Old = genDamage(g, len(uc.Recs))
+			if g.Chance(1, 4) {
+				fc.Old = genGarbage(g, len(uc.Recs))
+			}
 		}
 		if fc.Db.Kind != "intact" && fc.Old.Kind != "intact" {
 			if unreadable >= maxUnreadable {
@@ -696,7 +798,7 @@ func bigFallback(g *vlib.Rng) {
 	setMode(false)
 	prev := runtime.GOMAXPROCS(0)
 	for _, procs := range []int{prev, 1} {
-		got := openDir(dirs[2], g.Bool(), procs)
+		got, _ := openDir(dirs[2], g.Bool(), procs)
 		desc := fmt.Sprintf("UTXO.db (%d records) %s, UTXO.old intact (%d records), GOMAXPROCS %d", nB, what, nA, procs)
 		if got.err != "" {
 			fail(desc + ": " + got.err)
